@@ -252,7 +252,182 @@ var replayHarnesses = map[string]*replayHarness{
 	"(IntCodec[int32]).Read":  codecHarness("Int32Codec{}", 8),
 	"(IntCodec[int16]).Read":  codecHarness("Int16Codec{}", 8),
 	"(IntCodec[int64]).Skip":  codecHarness("Int64Codec{}", 8),
-	"parseTime":               parseTimeHarness(),
+	"time:parseTime":          parseTimeHarness(),
+	"time:(DateCodec).Read":   timeReadHarness("DateCodec{}", false),
+	"time:(LongCodec).Read":   timeReadHarness("LongCodec{mult: $mult}", true),
+	"time:(DateCodec).Write":  timeWriteHarness("DateCodec{}", false),
+	"time:(LongCodec).Write":  timeWriteHarness("LongCodec{mult: $mult}", true),
+}
+
+// the mult field of a LongCodec receiver (struct leaves are named by field position: Int64Codec is c.0, mult is c.1)
+func multTerm(e *Engine, o *Obligation) []namedTerm {
+	if t := e.inputTerm(o, "c.1"); t != nil && t.Sort.Kind == SBV && t.Sort.W == 64 {
+		return []namedTerm{{"c.mult", t}}
+	}
+	return nil
+}
+
+// findApps collects the applications of an uninterpreted function in the obligation (hypotheses and goal).
+func findApps(o *Obligation, name string) []*Term {
+	seen := map[*Term]bool{}
+	var out []*Term
+	var walk func(t *Term)
+	walk = func(t *Term) {
+		if t == nil || seen[t] {
+			return
+		}
+		seen[t] = true
+		if t.Op == "app" && t.Name == sanitize(name) && !t.hasBV {
+			out = append(out, t)
+		}
+		for _, a := range t.Args {
+			walk(a)
+		}
+	}
+	for _, h := range o.Hyps {
+		walk(h)
+	}
+	walk(o.Goal)
+	return out
+}
+
+const timeReplayPrelude = `package time
+
+import (
+	"encoding/binary"
+	"testing"
+	stdtime "time"
+	"unsafe"
+
+	"github.com/philpearl/avro"
+)
+
+var _ = binary.Varint
+var _ = unsafe.Pointer(nil)
+var _ avro.Codec
+var _ stdtime.Time
+
+func floorDiv(a, b int64) int64 {
+	q := a / b
+	if a%b != 0 && (a < 0) != (b < 0) {
+		q--
+	}
+	return q
+}
+`
+
+// harness for DateCodec.Read / LongCodec.Read of package avro/time: the oracle is the Avro definition of the logical
+// type (days, or units of mult nanoseconds, from the epoch) on values whose instant is representable (C19)
+func timeReadHarness(expr string, long bool) *replayHarness {
+	return &replayHarness{pkg: "time", pkgDir: "time",
+		want: func(e *Engine, o *Obligation) []namedTerm {
+			return append(e.readBufTerms(o, "r"), multTerm(e, o)...)
+		},
+		gen: func(vals map[string]uint64, o *Obligation) string {
+			buf, ok := goBuf(vals)
+			if !ok || int64(vals["rb.i"]) < 0 || int64(vals["rb.i"]) > int64(vals["rb.len"]) {
+				return ""
+			}
+			mult := int64(vals["c.mult"])
+			if long && mult != 1 && mult != 1000 && mult != 1000000 {
+				return ""
+			}
+			c := strings.ReplaceAll(expr, "$mult", fmt.Sprint(mult))
+			oracle := `
+	if n <= 0 || err != nil || v < -2147483648 || v > 2147483647 {
+		return
+	}
+	if tm.Unix() != v*86400 || tm.Nanosecond() != 0 {
+		t.Logf("REPLAY-CONFIRMED: day count %d decoded to %v (unix %d), the date type defines unix %d", v, tm, tm.Unix(), v*86400)
+		t.Fail()
+	}`
+			if long {
+				oracle = fmt.Sprintf(`
+	const mult = int64(%d)
+	if n <= 0 || err != nil || v <= -9000000000000 || v >= 9000000000000 {
+		return
+	}
+	ns := v * mult
+	if tm.Unix() != floorDiv(ns, 1000000000) || int64(tm.Nanosecond()) != ns-floorDiv(ns, 1000000000)*1000000000 {
+		t.Logf("REPLAY-CONFIRMED: stored %%d (unit %%d ns) decoded to %%v, the type defines unix nanoseconds %%d", v, mult, tm, ns)
+		t.Fail()
+	}`, mult)
+			}
+			return timeReplayPrelude + fmt.Sprintf(`
+func TestGovcReplay(t *testing.T) {
+	data := %s[%d:]
+	defer func() {
+		if x := recover(); x != nil {
+			t.Logf("REPLAY-CONFIRMED: %%s panicked on %%v: %%v", %q, data, x)
+			t.Fail()
+		}
+	}()
+	r := avro.NewReadBuf(data)
+	var tm stdtime.Time
+	err := %s.Read(r, unsafe.Pointer(&tm))
+	v, n := binary.Varint(data)%s
+}
+`, buf, int64(vals["rb.i"]), o.Func, c, oracle)
+		}}
+}
+
+// harness for DateCodec.Write / LongCodec.Write: the instant comes from the model's values of tsec(t), tnsec(t); the
+// oracle is floor(instant / resolution) (C19)
+func timeWriteHarness(expr string, long bool) *replayHarness {
+	return &replayHarness{pkg: "time", pkgDir: "time",
+		want: func(e *Engine, o *Obligation) []namedTerm {
+			secs := findApps(o, "ghost:tsec")
+			if len(secs) == 0 {
+				return nil
+			}
+			out := []namedTerm{{"t.sec", secs[0]}}
+			for _, ns := range findApps(o, "ghost:tnsec") {
+				if len(ns.Args) == len(secs[0].Args) && len(ns.Args) > 0 && ns.Args[0] == secs[0].Args[0] {
+					out = append(out, namedTerm{"t.nsec", ns})
+					break
+				}
+			}
+			return append(out, multTerm(e, o)...)
+		},
+		gen: func(vals map[string]uint64, o *Obligation) string {
+			sec, nsec, mult := int64(vals["t.sec"]), int64(vals["t.nsec"]), int64(vals["c.mult"])
+			lim := int64(1) << 40
+			if long {
+				lim = 9000000000
+			}
+			if nsec < 0 || nsec >= 1000000000 || sec <= -lim || sec >= lim {
+				return ""
+			}
+			if long && mult != 1 && mult != 1000 && mult != 1000000 {
+				return ""
+			}
+			c := strings.ReplaceAll(expr, "$mult", fmt.Sprint(mult))
+			want := "floorDiv(sec, 86400)"
+			if long {
+				want = fmt.Sprintf("floorDiv(sec*1000000000+nsec, %d)", mult)
+			}
+			return timeReplayPrelude + fmt.Sprintf(`
+func TestGovcReplay(t *testing.T) {
+	sec, nsec := int64(%d), int64(%d)
+	_ = nsec
+	tm := stdtime.Unix(sec, nsec).UTC()
+	defer func() {
+		if x := recover(); x != nil {
+			t.Logf("REPLAY-CONFIRMED: %%s panicked on %%v: %%v", %q, tm, x)
+			t.Fail()
+		}
+	}()
+	w := avro.NewWriteBuf(nil)
+	%s.Write(w, unsafe.Pointer(&tm))
+	got, n := binary.Varint(w.Bytes())
+	want := %s
+	if n != len(w.Bytes()) || got != want {
+		t.Logf("REPLAY-CONFIRMED: %%s stored %%d for %%v (unix %%d s %%d ns); the logical type defines %%d", %q, got, tm, sec, nsec, want)
+		t.Fail()
+	}
+}
+`, sec, nsec, o.Func, c, want, o.Func)
+		}}
 }
 
 func harnessKey(fn string) string {
@@ -321,7 +496,11 @@ func (e *Engine) evalTerms(o *Obligation, nts []namedTerm, extra ...*Term) (map[
 }
 
 func (e *Engine) tryReplay(vdir, prop string, o *Obligation, replayFile string) bool {
-	h := replayHarnesses[harnessKey(o.Func)]
+	key := harnessKey(o.Func)
+	if rel, err := filepath.Rel(e.repoDir, filepath.Dir(o.Pos.Filename)); err == nil && rel != "." && rel != "" {
+		key = rel + ":" + key // same method names exist in several packages (StringCodec.Read)
+	}
+	h := replayHarnesses[key]
 	note := func(k string, v interface{}) {
 		b, err := os.ReadFile(replayFile)
 		if err != nil {
@@ -359,9 +538,23 @@ func (e *Engine) tryReplay(vdir, prop string, o *Obligation, replayFile string) 
 		note("replay", "no concrete model of the instantiated query within 30 s")
 		return false
 	}
+	sv := map[string]int64{}
+	for k, v := range vals {
+		if !strings.HasPrefix(k, "rb.b") {
+			sv[k] = int64(v)
+		}
+	}
+	note("replay_model_values", sv)
+	if os.Getenv("GOVC_REPLAYDBG") != "" {
+		var ns []string
+		for _, l := range o.Inputs {
+			ns = append(ns, l.Name)
+		}
+		note("replay_input_names", ns)
+	}
 	src := h.gen(vals, o)
 	if src == "" {
-		note("replay", "the model needs a buffer longer than the harness materialises; not replayed")
+		note("replay", "the model is outside what the harness can materialise (buffer longer than 48 bytes, or values outside the harness range); not replayed")
 		return false
 	}
 	dir, err := os.MkdirTemp("", "govc-replay")
